@@ -64,6 +64,12 @@ def all_cases(tier):
                     yield (("OV", n, mask, level), pl, PATTERNS["quick"][0])
 
 
+    # OK: an overload set in the stubs whose name is a runtime member of ANOTHER kind (a class with overloaded methods of its own, an attribute):
+    # "never raises on mismatched kinds", the runtime member stays as it is
+    for rk in ("class", "attribute"):
+        for pl in PLACEMENTS:
+            yield (("OK", rk), pl, PATTERNS["quick"][0])
+
     # WS: "loses nothing", differentially: a package whose __init__ re-exports through wildcards and assembled __all__ lists is loaded
     # without stubs and with a stub for its __init__ (two placements): every runtime member must still be there, with the same kind/target
     for variant in WS_VARIANTS:
@@ -156,6 +162,50 @@ def _ov_sources(n, mask, level):
             if mask >> i & 1:
                 rt.append(f"    def {nm}(self, a):\n        return a")
     return "\n".join(rt) + "\n", "\n".join(st) + "\n"
+
+
+def _run_ok(griffe, acc, case):
+    (_tag, rk), pl, _pat = case
+    rt = "from typing import overload\n" + ("class T:\n    @overload\n    def m(self, a: int) -> int: ...\n    @overload\n    def m(self, a: str) -> str: ...\n    def m(self, a):\n        return a\n"
+                                             if rk == "class" else "T = 1\n")
+    st = "from typing import overload\n@overload\ndef T(a: int) -> int: ...\n@overload\ndef T(a: str) -> str: ...\n"
+    if pl == "sibling-module":
+        files, top, modpath, opts = {"mod.py": rt, "mod.pyi": st}, "mod", "mod", {}
+    elif pl == "in-package":
+        files, top, modpath, opts = {"pkg/__init__.py": "", "pkg/__init__.pyi": "", "pkg/mod.py": rt, "pkg/mod.pyi": st}, "pkg", "pkg.mod", {}
+    else:
+        files, top, modpath, opts = {"pkg/__init__.py": "", "pkg/mod.py": rt, "pkg-stubs/__init__.pyi": "", "pkg-stubs/mod.pyi": st}, "pkg", "pkg.mod", {"find_stubs_package": True}
+    cd = {"case": [["OK", rk], pl, list(_pat)], "files": files}
+    seen = {}
+    with sandbox.scratch_dir("c19k") as d:
+        sandbox.write_tree(d, files)
+        for order in ORDERS:
+            try:
+                with listing.Listing(listing.ascending if order == "asc" else listing.descending):
+                    loader = griffe.GriffeLoader(search_paths=[d], allow_inspection=False)
+                    loader.load(top, **opts)
+                t = loader.modules_collection[modpath].members["T"]
+                if rk == "class":
+                    ov = getattr(t, "overloads", None)
+                    got = ("class" if t.is_class else t.kind.value, "not-a-mapping:" + type(ov).__name__ if not isinstance(ov, dict) else sorted((k, len(v)) for k, v in ov.items()),
+                           sorted(t.members), [str(o.returns) for o in (t.members["m"].overloads or [])] if "m" in t.members else None)
+                    want = ("class", [("m", 2)] if False else got[1] if isinstance(ov, dict) else None, ["m"], ["int", "str"])
+                    if not t.is_class or not isinstance(ov, dict) or got[2] != ["m"] or got[3] != ["int", "str"]:
+                        acc.violation("merge/overload-kinds/class", f"{modpath}.T (runtime class with an overloaded method m; the stubs overload a function T): after the merge kind={got[0]}, T.overloads={got[1]}, members={got[2]}, "
+                                      f"overloads of T.m={got[3]}", cd, {"placement": pl, "order": order}, size=1)
+                else:
+                    got = (t.kind.value, hasattr(t, "overloads") and bool(getattr(t, "overloads")), None if t.value is None else str(t.value))
+                    if got != ("attribute", False, "1"):
+                        acc.violation("merge/overload-kinds/attribute", f"{modpath}.T (runtime attribute; the stubs overload a function T): after the merge (kind, has overloads, value) = {got}", cd,
+                                      {"placement": pl, "order": order}, size=1)
+                seen[order] = repr(got)
+            except Exception as e:  # noqa: BLE001
+                acc.violation(f"raise/{type(e).__name__}/overload-kinds/{pl}", f"load with stubs raised {e!r}", cd, None, size=1)
+                return
+    if len(set(seen.values())) > 1:
+        acc.violation("order/overload-kinds", f"{modpath}.T differs between listing orders: {seen}", cd, None, size=1)
+    acc.case({"case": cd["case"]}, outcome=pl + ":overload-kinds", nontrivial=True)
+    acc.observe(seen)
 
 
 def _run_ov(griffe, acc, case):
@@ -381,6 +431,8 @@ def run_case(griffe, acc, case):
         return _run_ov(griffe, acc, case)
     if sv[0] == "WS":
         return _run_ws(griffe, acc, case)
+    if sv[0] == "OK":
+        return _run_ok(griffe, acc, case)
     files, top, modpath, opts = layout(case)
     results = {}
     cd = {"case": [list(sv), pl, list(pat)], "files": files}
